@@ -178,15 +178,24 @@ Definition seval (env : denv) (e : sentry) : entry :=
 (* ------------------------------------------------------------------ the certificate *)
 Definition leaf_chan_match (a b : leaf) : bool :=
   existsb (fun x => existsb (fun y => ChannelIdentifier_eq y x) (l_chans b)) (l_chans a).
-(* a channel-sharing pair is fine if one provably ends before the other starts, or if both provably have no length *)
-Definition pair_ok (x y : sentry) : bool :=
+(* Strict form: a channel-sharing pair is fine if one provably ends before the other starts, or if both provably have no
+   length.  It forbids every intersection of open intervals, also "an operation without length strictly inside another". *)
+Definition snonpos (x : sentry) : bool := mp_le (se_end x) (se_start x).
+Definition pair_ok_strict (x y : sentry) : bool :=
   negb (leaf_chan_match (se_leaf x) (se_leaf y))
   || mp_le (se_end x) (se_start y) || mp_le (se_end y) (se_start x)
-  || (mp_le (se_end x) (se_start x) && mp_le (se_end y) (se_start y)).
-Fixpoint cert_list (l : list sentry) : bool :=
-  match l with [] => true | a :: t => forallb (pair_ok a) t && cert_list t end.
-Definition cert_no_overlap (ns : list node) : bool :=
-  match slisting ns with Some sl => cert_list sl | None => false end.
+  || (snonpos x && snonpos y).
+(* Exact form (the two clauses of the property): an operation that provably has no length may sit inside another one,
+   unless one of the two is a Barrier. *)
+Definition sis_barrier (x : sentry) : bool := l_cls (se_leaf x) =? C_Barrier.
+Definition pair_ok (x y : sentry) : bool :=
+  pair_ok_strict x y || ((snonpos x || snonpos y) && negb (sis_barrier x) && negb (sis_barrier y)).
+Fixpoint cert_list_with (pk : sentry -> sentry -> bool) (l : list sentry) : bool :=
+  match l with [] => true | a :: t => forallb (pk a) t && cert_list_with pk t end.
+Definition cert_with (pk : sentry -> sentry -> bool) (ns : list node) : bool :=
+  match slisting ns with Some sl => cert_list_with pk sl | None => false end.
+Definition cert_no_overlap (ns : list node) : bool := cert_with pair_ok ns.
+Definition cert_strict (ns : list node) : bool := cert_with pair_ok_strict ns.
 
 (* diagnostics: listing positions of the pairs the certificate cannot order *)
 Fixpoint cert_failures_from (i : nat) (l : list sentry) : list (nat * nat) :=
